@@ -234,6 +234,26 @@ func c03compare(got mvt.Layers, want []c03layer) string {
 // ---- generators
 
 func c03ring(r *h.Rand, bx, by int, ccw bool) orb.Ring {
+	if r.P(1, 12) {
+		// a sliver: a triangle as long as the coordinate range allows (|v| < 2^28) whose doubled area is 1..8. Its winding
+		// is the sign of an integer far smaller than the rounding error of a float64 shoelace sum over such coordinates.
+		a := r.Range(1<<24, 1<<28-16)
+		k := r.Range(1, 8)
+		px, py := -a/2, -(a+k)/2
+		ring := orb.Ring{{float64(px), float64(py)}, {float64(px + a), float64(py + a + k)}, {float64(px + a - 1), float64(py + a + k - 1)}}
+		if r.Bool() { // started elsewhere
+			ring = orb.Ring{ring[1], ring[2], ring[0]}
+		}
+		if s := shoelaceSignI(ring); s == 0 {
+			panic("c03ring: sliver without area")
+		} else if (s > 0) != ccw {
+			ring.Reverse()
+		}
+		if r.Bool() {
+			ring = append(ring, ring[0])
+		}
+		return ring
+	}
 	for {
 		n := r.Range(3, 8)
 		ring := make(orb.Ring, n)
